@@ -93,8 +93,8 @@ def neededShift (s : Stream) (c : Cfg) : Option Int :=
     let ml := metadataLen f m
     if ml ≤ d.offset then
       let gap := d.offset - ml
-      -- a `free` box of 8 .. 2^32-9 bytes closes the gap, unless it would exceed the configured metadata limit
-      if gap = 0 ∨ (8 ≤ gap ∧ gap ≤ u32Max - 8 ∧ gap ≤ c.maxMetadataSize) then none else some (-(gap : Int))
+      -- a `free` box of 8 .. 2^32-9 bytes closes the gap, unless it would be larger than the metadata itself
+      if gap = 0 ∨ (8 ≤ gap ∧ gap ≤ u32Max - 8 ∧ gap ≤ ml) then none else some (-(gap : Int))
     else some ((ml - d.offset : Nat) : Int)
   | _, _, _ => none
 
